@@ -78,6 +78,32 @@ class C01(Monitor):
             r.report("C01", "halt-with-output:" + ",".join(sorted(bad)), f"Filtration halt and settled but energised: {bad}")
 
 
+class C01b(Monitor):
+    """C01, last sentence: once halted the system stays halted until a NEW mode request is accepted: every exit from halt
+    must consume a mode request received over MQTT (after the one consumed by the previous exit)"""
+
+    pid = "C01"
+
+    def attach(self, r):
+        self.r = r
+        self.consumed = 0
+        r.world.on_state.append(self.on_state)
+
+    def on_state(self, actor, old, new, hname, now, log_before):
+        if actor.sim_name != "Filtration" or old != "halt" or new == "halt":
+            return
+        trig = hname.split("@")[0]
+        log = self.r.world.log
+        for i in range(self.consumed, len(log)):
+            t, kind, data = log[i]
+            if kind == "mqtt" and data[0] == "/settings/mode":
+                pay = data[1].decode() if isinstance(data[1], (bytes, bytearray)) else str(data[1])
+                if pay == trig:
+                    self.consumed = i + 1
+                    return
+        self.r.report("C01", f"halt-left-without-request:{trig}", f"Filtration left halt by `{hname}` (now {new}) although no mode request `{trig}` has been received since the last one was honoured: the halt was undone by an internal message")
+
+
 class C02(Monitor):
     pid = "C02"
 
@@ -541,7 +567,7 @@ class WinterCycle(Monitor):
             check(k, r.world.now_us)
 
 
-SETTLED_MONITORS = [C01, C02, C05i, C06a, C07a, C08, C12a, C13a, C15a, C17a, Liveness, Timed, PhaseTimes, WinterCycle]
+SETTLED_MONITORS = [C01, C01b, C02, C05i, C06a, C07a, C08, C12a, C13a, C15a, C17a, Liveness, Timed, PhaseTimes, WinterCycle]
 
 
 def all_monitors():
